@@ -117,3 +117,12 @@ package server
 //@         (metadata != nil ==> $o != nil && $o.Metadata == metadata) && (storageClass != nil ==> $o != nil && $o.StorageClass == storageClass) &&
 //@         (taggingValue != "" ==> $o != nil && same($o.Tags, tags)) &&
 //@         (ifMatch != nil ==> $o != nil && $o.IfMatchETag != nil && *$o.IfMatchETag == *ifMatch) && (ifNoneMatch != nil ==> $o != nil && $o.IfNoneMatchStar)
+
+// C30. The size guard bounds the body at the service's maximum entity size and nothing else: it never cuts the body at
+// the declared Content-Length (for an aws-chunked upload that is the decoded length, and a reader that stops there never
+// lets the chunk decoder see - and verify - the terminating chunk and the trailer).
+//@ func validateMaxEntitySize
+//@ mode effects
+//@ effect[C30:body-bounded-only-by-the-maximum-entity-size] every returns() if !result
+//@     needs before http.MaxBytesReader(_, $b, $n) -> ($res)
+//@     where $b == old(r.Body) && $n == storage.MaxEntitySize+1 && r.Body == $res
